@@ -507,6 +507,10 @@ def run(tier, seed, model_ok, translator, search=False):
             out.count("max_history_depth:%d" % depth)
             for f, fid in zip(case["files"], res["m"].file_id):
                 out.count("filekind:" + f["kind"])
+                if f["kind"] == "xlsx" and f.get("charts"):
+                    out.count("workbooks_with_chart_sheets")
+                    if any(ix < len(f["sheets"]) for _, ix in f["charts"]):
+                        out.count("workbooks_with_a_chart_sheet_before_a_worksheet")
                 if f["kind"] == "xlsx":
                     out.count("xlsx_sheets:%d" % len(f["sheets"]))
                     out.count("xlsx_sheets_with_hostile_title",
